@@ -163,9 +163,11 @@ func (e EmailVerify) End(w http.ResponseWriter, r *http.Request) error {
 	tokenValues := MustHaveEmailVerifyTokenValues(values)
 	wantToken := tokenValues.GetToken()
 
-	givenToken, _ := authboss.GetSession(r, authboss.Session2FAAuthToken)
+	givenToken, ok := authboss.GetSession(r, authboss.Session2FAAuthToken)
 
-	if 1 != subtle.ConstantTimeCompare([]byte(wantToken), []byte(givenToken)) {
+	// Without a token in the session none was e-mailed, an empty submission
+	// must not compare equal to that.
+	if !ok || len(givenToken) == 0 || 1 != subtle.ConstantTimeCompare([]byte(wantToken), []byte(givenToken)) {
 		ro := authboss.RedirectOptions{
 			Code:         http.StatusTemporaryRedirect,
 			Failure:      e.Localizef(r.Context(), authboss.TxtInvalid2FAVerificationToken),
